@@ -142,12 +142,43 @@ def coq_make(targets, timeout=1500):
     return rc == 0, o
 
 
+GEN_WANT = {}
+
+
+def want_gen(path, data=None):
+    """Remember what THIS run generated into coq/gen: the directory is shared by all runs, and a concurrent run
+    against another tree (scratch worktrees, VERIF_REPO) may overwrite a file between its generation and the
+    moment coqc reads it.  coq_props restores the remembered bytes inside the coq lock, so that the instance
+    theorems are always evaluated on the inputs of the tree this run examines.  data: bytes, str (UTF-8) or
+    None (= what is on disk now)."""
+    if data is None:
+        data = open(path, "rb").read()
+    elif isinstance(data, str):
+        data = data.encode("utf-8")
+    GEN_WANT[path] = data
+
+
+def restore_gen():
+    n = 0
+    for p, t in GEN_WANT.items():
+        try:
+            cur = open(p, "rb").read()
+        except OSError:
+            cur = None
+        if cur != t:
+            with open(p, "wb") as f:
+                f.write(t)
+            n += 1
+    return n
+
+
 def coq_props(files, timeout=1500, slow=()):
     """Force re-check of the property files (Props/Cxx.v, Inst/Cxxi.v): every theorem in them is an
     obligation; it is discharged iff the file compiles and Print Assumptions reports no axiom
     outside the allowed standard-library list.  Returns dict."""
     res = {"obligations": 0, "discharged": 0, "axioms": [], "failed": [], "log": "", "theorems": []}
     with Lock("coq"):
+        restore_gen()
         coq_makefile()
         # expensive instances: rebuilt by make only when what they depend on (the generated files) changed;
         # an up-to-date .vo was checked by the kernel against exactly the present inputs
